@@ -84,7 +84,7 @@ def run_history(case, root, u, schedules, name='h', base_args=('-r', 'T')):
     while True:
         ev = scheds[ri] if ri < len(scheds) else []
         ev = resolve(ev, rem, pos if distinct else 0, segs)
-        r = guard(case, session.run_main, root, args, ev)
+        r = guard(case, session.run_main, root, args, ev, clock_step=case.get('clock_step'))
         if r.error:
             raise Violation('crash:main', f'run {ri}: main() ended with {r.error}; stderr tail: {r.stderr[-300:]}', case)
         args = list(base_args) + ['-s', name, '--load']
